@@ -470,9 +470,10 @@ public:
 	    \param from source string
 	    \param s_offset in bytes to decode from
 	    \param ignore bytes to ignore counting back from end of message
+	    \param permissive_mode if true, pass fields unknown to the schema through with the group element they stand in
 	    \return number of bytes consumed */
 	unsigned decode_group(GroupBase *grpbase, const unsigned short fnum, const f8String& from,
-		unsigned s_offset, unsigned ignore);
+		unsigned s_offset, unsigned ignore, bool permissive_mode=false);
 
 	/*! Encode message to stream.
 	    \param to stream to encode to
